@@ -655,10 +655,18 @@ class AtLeast(puan.Proposition):
             -------
                 out : :class:`puan.Proposition`
         """
+        variable = None if self.generated_id else self.variable
+        if variable is not None and variable.bounds.constant is not None:
+            # a proposition fixed to a constant by its own variable is negated
+            # into one fixed to the opposite constant
+            variable = puan.variable(
+                variable.id,
+                (1-variable.bounds.upper, 1-variable.bounds.lower),
+            )
         negated = AtLeast(
             value=(self.value*-1)+1,
             propositions=self.propositions,
-            variable=None if self.generated_id else self.variable,
+            variable=variable,
             sign=-1*self.sign,
         )
         
